@@ -994,6 +994,52 @@ func TestVerif_C10_loop(t *testing.T) {
 		}
 	}
 	s.Count("exhaustive-cases")
+	// Set vs Add, systematically: every client-level op list x request-level op list of length
+	// <= 2 over {Set, Add} x two stubs, once for conditions and once for hooks
+	var opLists [][]string
+	for _, kind := range []string{"c", "h"} {
+		base := []string{"s" + kind + "0", "a" + kind + "0", "s" + kind + "1", "a" + kind + "1"}
+		opLists = [][]string{nil}
+		for _, a := range base {
+			opLists = append(opLists, []string{a})
+			for _, b := range base {
+				opLists = append(opLists, []string{a, b})
+			}
+		}
+		for _, co := range opLists {
+			for _, ro := range opLists {
+				tc := c10Simple()
+				tc.conds = []string{"G500", "E"}
+				tc.hooks = []string{"N", "N"}
+				tc.clientOps = append([]string{"n=3", "i=f1"}, co...)
+				tc.reqOps = append([]string{}, ro...)
+				if kind == "h" {
+					tc.script = []string{"t", "t", "s200", "c"}
+				} else {
+					tc.script = []string{"s503", "t", "s404", "s200", "c"}
+				}
+				recs = append(recs, c10Exec(tc, dir))
+				s.Count("setadd:" + kind)
+			}
+		}
+	}
+	// interval sources at both levels: function, fixed, backoff, default
+	ivs := []string{"", "i=f1", "i=x5", "i=b100:100000", "i=b100000000:2000000000"}
+	for _, ci := range ivs {
+		for _, ri := range ivs {
+			tc := c10Simple()
+			tc.clientOps = []string{"n=2"}
+			if ci != "" {
+				tc.clientOps = append(tc.clientOps, ci)
+			}
+			if ri != "" {
+				tc.reqOps = []string{ri}
+			}
+			tc.script = []string{"t", "t", "t", "c"}
+			recs = append(recs, c10Exec(tc, dir))
+			s.Count("interval-source")
+		}
+	}
 	// random policies
 	n := verifh.N(2500, 120000)
 	for i := 0; i < n; i++ {
